@@ -74,14 +74,15 @@ type seqRun struct {
 	held      []*heldEnv
 
 	// results
-	log     []string
-	viols   []*eng.Violation // violations raised by the LAST operation of the script (and by the final drain)
-	fatal   bool             // scheduler-level failure: the state is not expanded
-	key     string
-	preKey  string
-	enabled []string
-	cov     map[string]int
-	outcome string
+	log         []string
+	viols       []*eng.Violation // violations raised by the LAST operation of the script (and by the final drain)
+	fatal       bool             // scheduler-level failure: the state is not expanded
+	key         string
+	finalLedger [2]map[int]lent // server want-lists after the last operation (before the drain)
+	preKey      string
+	enabled     []string
+	cov         map[string]int
+	outcome     string
 }
 
 func (x *seqRun) logf(f string, a ...any) {
@@ -130,6 +131,9 @@ func (x *seqRun) Main() {
 		}
 	}
 	x.key = x.stateKey()
+	for r := 0; r < 2; r++ {
+		x.finalLedger[r] = x.w.ledger(r)
+	}
 	x.enabled = x.enabledOps()
 	n := len(x.viols)
 	x.drain()
@@ -382,8 +386,20 @@ func fmtWants(m map[int]want) string {
 func (x *seqRun) sent() {
 	h := x.held[0]
 	x.held = x.held[1:]
+	before := x.w.ledger(h.role)
 	x.w.e.MessageSent(h.env.Peer, h.env.Message)
 	h.env.Sent()
+	// a sent HAVE answers a want-have only: a want-block that is on the list by now (the peer upgraded
+	// after the envelope was made) stays accepted
+	if after := x.w.ledger(h.role); true {
+		for _, c := range h.haves {
+			if en, ok := before[c]; ok && !en.have {
+				if _, still := after[c]; !still {
+					x.fail(eng.V("accepted-want-dropped", "sent", fmt.Sprintf("the HAVE %s sent to p%d retired the want-BLOCK %s that the peer sent after the envelope was made: want-list %s -> %s", cname(c), h.role+1, cname(c), fmtLedger(before), fmtLedger(after)), "dropped_by", "sent-have"))
+				}
+			}
+		}
+	}
 	x.logf("sent: %s handed to the network (MessageSent + Sent)", h)
 	if h.dead {
 		return
